@@ -160,6 +160,7 @@ let replay (size : int) (script : string) (result : string) : string =
                | [], [] -> true
                | x :: a', y :: b' -> tok_match x y && cmp a' b'
                | _ -> false in
+             if Sys.getenv_opt "TWR_DEBUG" <> None then prerr_endline (Printf.sprintf "step %d: harness [%s] model [%s]" !steps (String.concat " " grp) (String.concat " " evs));
              if not (cmp evs grp) then
                err := Some (Printf.sprintf "step %d: harness [%s] model [%s]" !steps (String.concat " " grp) (String.concat " " evs))
              else begin s := s'; incr steps end);
